@@ -33,6 +33,8 @@ type Scenario struct {
 	// AfterTx: extra per-transaction oracle
 	AfterTx     func(e *Exec, obs *TxObs, pre, post map[string][]mc.KV) []Disc
 	PostProcess func(e *Exec, discs []Disc) []Disc
+	// VisitMidUpgrade: see Exec.VisitMidUpgrade
+	VisitMidUpgrade bool
 	// VisitAfterPrefix: Visit is first run on the state the prefix ends in (not after each of its blocks)
 	VisitAfterPrefix bool
 	// VisitPure: Visit only reads (no observations kept in the model state), so executions that run
@@ -125,7 +127,7 @@ func (s *Scenario) NewExec() *Exec {
 			w.Acct(n)
 		}
 	}
-	e := &Exec{W: w, Tracked: tr, Aux: map[string]int{}, AfterTx: s.AfterTx, Annotate: s.Annotate, Visit: s.Visit, PostProcess: s.PostProcess}
+	e := &Exec{W: w, Tracked: tr, Aux: map[string]int{}, AfterTx: s.AfterTx, Annotate: s.Annotate, Visit: s.Visit, PostProcess: s.PostProcess, VisitMidUpgrade: s.VisitMidUpgrade}
 	e.M = InitModel(w, tr)
 	if e.Visit != nil {
 		e.InitDiscs = e.Visit(e)
